@@ -22,9 +22,14 @@ InsideKeyperSet(s, n) == \A i \in DOMAIN s : s[i] < n
 
 (* signature i is a valid signature by the keyper named at position i over exactly the data
    the message carries now *)
+(* the keyper set of the eon is the last one announced for it; HolderOf: which key holds an
+   index of it (member number, or -1 for the account outside the original membership) *)
+LastAnnounced(c) == c.ann[Len(c.ann)]
+HolderOf(c, idx) == IF LastAnnounced(c) = "S" THEN idx ELSE idx - 1
+SignedBy(c, i) == IF c.sigs[i].b = c.n THEN 0 - 1 ELSE c.sigs[i].b
 Genuine(c, i) ==
     /\ c.sigs[i].k = "ok"
-    /\ c.sigs[i].b = c.signers[i]
+    /\ SignedBy(c, i) = HolderOf(c, c.signers[i])
     /\ c.sigs[i].o = c.mut
 
 GenuineThreshold(c) ==
@@ -52,6 +57,8 @@ Failed(c, o) ==
 
 (* design-level statement checked by TLC on the code-shaped layer: every outcome the
    code-shaped operators allow satisfies the monitors *)
-DesignHolds(c) == \A o \in Pipeline(c) : Failed(c, o) = {}
+DesignHolds(c) ==
+    /\ \A o \in Pipeline(c) : Failed(c, o) = {}
+    /\ c.f = "gnosis" => \A o \in AccessValidateMessage(c) : Failed(c, o) = {}
 
 =============================================================================
